@@ -7,7 +7,7 @@ def run(tier, seed, update_ledger=False, only=None, jobs=None):
     hs = [h for h in made_harnesses(tier) if not only or only in h.hid]
     return run_check("C06", hs, tier=tier, seed=seed, update_ledger=update_ledger, jobs=jobs,
                      unbounded_in=["all weight / bias values", "all inputs and contexts", "all random-mask (degree) draws"],
-                     bounded_in={"architectures": "10 per copy (quick): D<=3, H<=4, blocks<=2, multiplier<=3; thorough: D<=5, H<=6, blocks<=3, all boolean options"},
+                     bounded_in={"architectures": "10 per copy (quick): D<=3, H<=4, blocks<=2, multiplier<=3; thorough: about 160 per copy sampled deterministically from D<=4 (5), H in {2,4,6}, blocks<=2, all boolean options"},
                      assumptions=["may-dependency abstraction (Dep domain): dependencies propagate through sums, products (only through possibly non-zero factors), "
                                   "elementwise nonlinearities, dropout and per-feature batch norm; sound over-approximation of functional dependence",
                                   "torch.randint returns integers in [low, high)"])
